@@ -12,10 +12,10 @@ RULE = ("one evaluation = one world run to quiescence: 2-4 real client stacks (n
         "no marker of any message body in any frame that left a client. Non-trivial = >= 2 messages with a group or media "
         "message, or a fault/restart; distinct by (script, schedule trace) hash")
 ASSUMPTIONS = ["the server double implements our reading of the server's routing (per-participant pkmsg/msg + shared skmsg, acks, receipts, offline queue, one one-time key per fetch)",
-               "framed wiring: the noise/segment layers are not in these stacks (C04/C11 cover them); frames are plaintext binary-XML, so the plaintext scan sees exactly what would be encrypted on the socket",
+               "85% of the runs use the framed wiring (no noise/segment layers; frames are plaintext binary-XML, so the plaintext scan sees exactly what would be encrypted on the socket), 15% the library's complete default layer stack against the Noise responder double with the handshake worker thread synchronised between scheduler steps",
                "python-axolotl's block-aligned padding defect is shimmed (third party)",
                "restarts happen only when nothing is in flight; eventual delivery is judged at quiescence with every party connected"]
-REQUIRED = ["runs", "messages_sent", "deliveries_checked", "receipts_checked", "frames_scanned", "kind:text", "kind:image",
+REQUIRED = ["runs", "wiring:full", "wiring:framed", "messages_sent", "deliveries_checked", "receipts_checked", "frames_scanned", "kind:text", "kind:image",
             "target:group", "target:direct", "fault:dup", "fault:corrupt", "restarts", "sessions_bootstrapped", "retries_seen"]
 TIMEOUT = {"quick": 600, "thorough": 7200}
 
@@ -149,6 +149,8 @@ def check_world(acc, W, msgs, groups, w):
     for l in W.log:
         if l[0] == "exception" and l[2] == "detached":
             ok = bad("exception-detached:%s" % l[3], "exception in a deferred event handler: %s" % (l[4],))
+    if W.peer_errors:
+        ok = bad("peer-cannot-decrypt", "the strict Noise peer could not parse/decrypt a client's byte stream: %s" % (W.peer_errors[0],))
     if W.decode_errors:
         ok = bad("client-frame-invalid", "a client emitted a frame the reference decoder rejects: %s" % (W.decode_errors[0],))
     sent = [m for m in msgs if m.entity_id is not None]
@@ -231,7 +233,7 @@ def check_world(acc, W, msgs, groups, w):
     for m in sent:
         needles.append((m.marker.encode("utf-8"), m.uid))
         needles.append((m.bmarker, m.uid))
-    for phone, frame in W.wire_frames:
+    for phone, frame in W.wire_frames + W.cipher_frames:
         acc.count("frames_scanned")
         for nd, uid in needles:
             if nd in frame:
@@ -248,7 +250,11 @@ def one_run(acc, seed, tag):
     strategy = r.choice(STRATEGIES)
     if strategy == "starve":
         strategy = "starve:" + r.choice(phones)
-    W = world.World(seed=r.randrange(1 << 30), strategy=strategy, batch=r.choice([30, 40, 60]))
+    wiring = "full" if r.random() < 0.15 else "framed"
+    W = world.World(seed=r.randrange(1 << 30), strategy=strategy, batch=r.choice([30, 40, 60]), wiring=wiring)
+    if wiring == "full" and r.random() < 0.5:
+        cr = gen.rng(seed, ID, tag + "/chunks")
+        W.chunker = lambda b: gen.cut(b, gen.random_cuts(cr, len(b), cr.choice([0, 1, 2, 5])))
     W.server.low_keys = 12
     groups = {}
     for gi in range(r.choice([0, 1, 1, 2])):
@@ -283,7 +289,7 @@ def one_run(acc, seed, tag):
             m.fault = "dup" if c < 0.12 else "corrupt" if c < 0.24 else None
             a["build"] = mk
     W.script = script
-    w = {"tag": tag, "strategy": strategy, "accounts": nacc, "latecomer": latecomer, "groups": {g: len(v) for g, v in groups.items()},
+    w = {"tag": tag, "strategy": strategy, "wiring": wiring, "accounts": nacc, "latecomer": latecomer, "groups": {g: len(v) for g, v in groups.items()},
          "script": [(a["op"], a.get("who"), a.get("kind"), a["msg"].target if "msg" in a else None, a["msg"].fault if "msg" in a else None) for a in script]}
     try:
         quiet = W.run(max_steps=30000)
@@ -293,6 +299,11 @@ def one_run(acc, seed, tag):
         W.close()
         return
     acc.count("runs")
+    acc.count("wiring:" + wiring)
+    if W.idle_timeouts:
+        acc.inconc("%s: handshake threads did not become idle within 20 s (%d times)" % (tag, W.idle_timeouts))
+        W.close()
+        return
     acc.count("strategy:" + strategy.split(":")[0])
     if latecomer:
         acc.count("latecomer_runs")
